@@ -111,7 +111,7 @@ class TravBase(Check):
             links = [rng.choice(opts3) for _ in range(3 if quick else 4)]
             yield self.one(real, rng, 3, links, full=False)
         # worlds reached by arbitrary histories (members removed again, ends reassigned, …)
-        for _ in range(250 if quick else 6000):
+        for _ in range(150 if quick else 6000):
             yield self.history_world(real, rng, quick)
         # random larger multigraphs
         for _ in range(150 if quick else 4000):
